@@ -25,7 +25,12 @@ import (
 	"mycoverif/simsync"
 )
 
-type fakeLink struct{ id int }
+// fakeLink stands for a router's link object. A link may start closing while frames received
+// on it are still being handled (and copied): closing is a state the tape switches.
+type fakeLink struct {
+	id      int
+	closing bool
+}
 
 func (l *fakeLink) String() string                              { return fmt.Sprintf("link%d", l.id) }
 func (l *fakeLink) Peer() netip.Addr                            { return netip.Addr{} }
@@ -38,7 +43,7 @@ func (l *fakeLink) LocalAddr() net.Addr                         { return nil }
 func (l *fakeLink) RemoteAddr() net.Addr                        { return nil }
 func (l *fakeLink) Latency() uint16                             { return 0 }
 func (l *fakeLink) FlowControlIndicator() frame.FlowControlFlag { return 0 }
-func (l *fakeLink) IsClosing() bool                             { return false }
+func (l *fakeLink) IsClosing() bool                             { return l.closing }
 
 type shadow struct {
 	id     int
@@ -122,7 +127,7 @@ func run(e *core.Env) {
 		off, ov = 12, 16
 	}
 	b.SetFrameMargins(off, ov)
-	links := []*fakeLink{{1}, {2}, {3}}
+	links := []*fakeLink{{id: 1}, {id: 2}, {id: 3}}
 
 	var live []*shadow
 	var limbo []*shadow // frames whose reply was refused: kept aside, released later
@@ -341,6 +346,12 @@ func run(e *core.Env) {
 			o := live[tp.Intn(len(live))]
 			how := fmt.Sprintf("clone(#%d %d bytes)", o.id, len(o.data))
 			hist = append(hist, how)
+			if fl, ok := o.link.(*fakeLink); ok && tp.Chance(1, 4) {
+				// the link the frame came in on starts closing (or is reported live again by a
+				// reconnect) while the frame is being handled
+				fl.closing = !fl.closing
+				e.Probe("clone_of_a_frame_whose_link_is_closing")
+			}
 			var c frame.Frame
 			if e.Guard("panic", func() { c = o.f.Clone() }) {
 				e.Fail("", "")
